@@ -50,7 +50,7 @@ theorem tableInv_subset_rowClauses (bs : Nat) (t : FullTable)
       | [] => [])) = true) :
     ∀ c ∈ tableInv bs t, c ∈ rowClauses := by
   unfold tableInv
-  simp only [c4, c5, c6, c7, if_true, List.append_nil]
+  simp only [c4, c5, c6, if_true, List.append_nil]
   intro c hc
   simp only [List.mem_append] at hc
   rcases hc with ((hc | hc) | hc) | hc
